@@ -11,6 +11,10 @@ BUDGET = {"quick": 16000, "thorough": 150000}
 
 def explore(res, scale=1, seed=None):
     seed = res.seed if seed is None else seed
+    # frames produced by the client's own block path (query.go encodeBlock) for blocks larger than 1 MiB, every method:
+    # read back through compress.Reader + block decoder, must hold the rows handed in (direct oracle)
+    from lib import colfam
+    colfam.run_direct(res, "c02big", 10 * scale, seed, builds=("default",))
     wd = C.workdir(res.pid)
     binp = C.build_harness()
     out = os.path.join(wd, "c05_%d.tsv" % seed)
